@@ -278,7 +278,10 @@ def oracle(case, res, hist):
     if never_quiet:
         V.append(v("never-quiescent", ctxkey, "the world was still busy after 400 simulated seconds"))
     # nothing else on the initiator may hang (the blocked sender is expected to be released by the kill)
+    term_blocked = any(x["rule"] == "terminate-blocked" for x in V)
     for op, blabel, pname in res.blocked:
+        if term_blocked:
+            break  # (the sender stuck behind the same full pipe is part of that finding)
         if pname == "init" and op[2] not in ("terminate",):
             V.append(v("blocked-forever", f"{op[2]};{ctxkey}", f"initiator actor {op[0]} op {op[1]} blocked at {blabel}"))
     return V
